@@ -1,1 +1,7 @@
-// harnesses for src/timeout_list (child module, cfg(kani) only)
+// child module of src/timeout_list.rs (cfg(kani) only)
+use super::*;
+
+/// construct a list entry (field `time` is private to timeout_list.rs)
+pub fn mk_timeout_data<T>(time: u64, data: T) -> TimeoutData<T> {
+    TimeoutData { time, data }
+}
